@@ -26,26 +26,56 @@ def rule_R03_1(ctx):
         return r
     graph = prog.call_graph()
     reach_ev = {p for p in prog.fns if ev.path in prog.reachable_from([p], graph) or p == ev.path}
+    import inline
     for c in callers:
         f = c.fn
+
+        def parser_calls(fn_):
+            return [d for d in fn_.calls() if "lalrpop_util::ParseError" in (d.dstty or "")
+                    and not (d.declared or "").startswith("std::")]
+        # parse and evaluation may live in sibling helpers of one driver
+        # function: climb to the function whose (inlined) body does both
+        for _ in range(3):
+            if parser_calls(f):
+                break
+            up = {x.fn.root_fn().path for x in prog.callers_of(f.path)}
+            if len(up) != 1:
+                break
+            g_ = prog.fns.get(next(iter(up)))
+            if g_ is None or f.path not in inline.private_helpers(prog, g_):
+                break
+            def _keep_program_evaluator(call_, _ev=ev.path):
+                return call_.res != _ev      # the evaluator itself stays a call
+            f = inline.view(prog, g_, pick=_keep_program_evaluator)
+        if f is not c.fn:
+            cs_ = [d for d in f.calls() if not d.is_ptr and d.res == ev.path]
+            if not cs_:
+                r.unproven.append("%s: evaluator call not found in the inlined driver" % f.path)
+                continue
+            c = cs_[0]
         pi = [i for i, t in enumerate(c.argtys) if t == PROG_TY][0]
         cp = tuple(p for p in f.canon_op(c.args[pi]) if p not in ("&", "*"))
         # the Prog comes from a local defined on the Ok edge of the parse result
         parse = None
         ok_t = err_t = None
-        for bb in range(len(f.blocks)):
-            if f.is_cleanup(bb) or f.term(bb)["k"] != "switch":
+        pcs = parser_calls(f)
+        tainted = ops.forward_taint(f, pcs[0]) if len(pcs) == 1 else set()
+        transport_bbs = {pcs[0].bb} if len(pcs) == 1 else set()
+        for d in f.calls():
+            if d.dst is not None and d.dst[0] in tainted:
+                transport_bbs.add(d.bb)
+        for bb in f.rpo():
+            if f.is_cleanup(bb) or f.term(bb)["k"] != "switch" or parse is not None:
                 continue
             info = f.switch_info(bb)
-            if not info or info["kind"] != "discr" or "lalrpop_util::ParseError" not in info["enum"]:
+            if not info or info["kind"] != "discr" or info["place"][0] not in tainted:
                 continue
-            root = f.canon(info["place"])[0]
-            if root[0] == "call":
-                pc = f.call_at(root[1])
-                if pc is not None:
-                    parse = pc
-                    ok_t = dict(info["cases"]).get("Ok", info["otherwise"])
-                    err_t = dict(info["cases"]).get("Err", info["otherwise"])
+            names = dict(info["cases"])
+            if not ({"Ok", "Err", "Continue", "Break"} & set(names)):
+                continue
+            parse = pcs[0]
+            ok_t = names.get("Ok", names.get("Continue", info["otherwise"]))
+            err_t = names.get("Err", names.get("Break", info["otherwise"]))
         if parse is None:
             r.fail("%s | no parse-result switch" % f.path,
                    "%s calls the program evaluator but does not branch on a parse result" % f.path, where=c.loc)
@@ -67,7 +97,8 @@ def rule_R03_1(ctx):
                     src = f.canon_op(payload[1])
         elif cp:
             src = cp
-        good = src is not None and src[0] == ("call", parse.bb) and ("d", "Ok") in src
+        good = src is not None and src[0][0] == "call" and src[0][1] in transport_bbs \
+            and (("d", "Ok") in src or ("d", "Continue") in src)
         r.inst("%s: evaluated program is %s" % (f.path, src))
         if good:
             r.ok()
